@@ -556,10 +556,10 @@ def jobs(tier):
         for bi in range(0, len(cfgs), B):
             batch = cfgs[bi:bi + B]
             anc_bits = sum(1 << (d * 4 + b) for d in range(n) for b in range(n) if anc[d][b])
-            j = Job(unit='tables', config='%s-batch%d' % (label, bi // B), c_text=c, entry='h_tables', kind='bounded', unwind=90, object_bits=10,
+            j = Job(unit='tables', config='%s-batch%d' % (label, bi // B), c_text=c, entry='h_tables', kind='bounded', unwind=90, object_bits=12,
                     defines=['CFG_N=%d' % n, 'CFG_ANC=%dull' % anc_bits, 'CFG_TABLE=' + cfg_table(batch, n, anc)],
-                    cbmc_extra=('--unwindset', 'build_dispatch_table:5') + (() if tier == 'thorough' else ('--no-standard-checks',)),
-                    drop_flags=() if tier == 'thorough' else ('--pointer-check',),   # quick: bounds / overflow checks only (pointer checks triple the symbolic-execution time)
+                    cbmc_extra=('--unwindset', 'build_dispatch_table:5', '--no-standard-checks'),   # bounds / overflow checks only: CBMC's pointer checks triple the symbolic-execution time of these concrete runs
+                    drop_flags=('--pointer-check',),
                     bound='build_dispatch_tables + build_dispatch_table + best + is_more_specific + is_base + accumulate run together on concrete registries: '
                           'every inheritance graph shape over <= 3 classes and the 4-class shapes with multiple inheritance and >= 3 edges (thorough: all), one method of arity 1..3 '
                           'with every choice of parameter classes (arity 3: a sample), definition sets of <= 4 definitions (all small ones, a seeded sample of the others, in sampled orders); '
